@@ -516,6 +516,29 @@ func init() {
 				})
 				if r != "ok" {
 					c.Violate("C08", "reads-hang-after-truncation", "balance / stream after a truncation: "+r, info)
+					okAll = false
+				}
+			}
+			// a SECOND truncation: the storage already holds checkpointed vertices and funds of the first one
+			if okAll {
+				for i := 0; i < 70; i++ {
+					t := w.NewTrx(w.wallets[0], w.wallets[1].Address(), spice.Melange{SupplementaryCurrency: 1}, nil)
+					if withDeadline(3*time.Second, func() { n.ab.CreateLeaf(context.Background(), &t) }) != "ok" {
+						okAll = false
+						break
+					}
+				}
+				before := len(n.ab.VerifSnapshot().CpVertices)
+				r := withDeadline(30*time.Second, func() { terr = n.ab.VerifTruncate(context.Background()) })
+				c.Rep.Evals++
+				c.Distinct("second-truncation")
+				if r != "ok" {
+					c.Violate("C08", "second-truncation-never-returns", fmt.Sprintf("a second truncation (storage already holds %d checkpointed vertices): %s", before, r), info)
+					return nil
+				}
+				c.Rep.Extra["second_truncation_stored"] = len(n.ab.VerifSnapshot().CpVertices) - before
+				for i := 0; okAll && i < 3; i++ {
+					okAll = w.probe(n, "second-truncation", info)
 				}
 			}
 			w.Close()
